@@ -247,30 +247,41 @@ def run(ctx, rep):
                     site='%s/waiting-without-waiter' % s7.fn.name))
     # ... and the other direction: a thread that drops the spinlock knowing the queue to be empty leaves MU_WAITING clear
     for r in eng.records:
-        if r.kind == 'trans' and r.wc.name == 'mu' and r.pairs and r.spin == 1 and r.new_spin == 0 and r.queue == 0:
+        # (not while the thread still holds the lock: the scanning unlocker parks the queue in a local list and drops the spinlock, holding the
+        # write lock, before it restores the queue; and a timed-out conditional waiter legitimately leaves MU_WAITING|MU_CONDITION behind)
+        if r.kind == 'trans' and r.wc.name == 'mu' and r.pairs and r.spin == 1 and r.new_spin == 0 and r.queue == 0 and r.new_hold not in ('W', 'R'):
             s7 = r.site(eng.wrappers)
-            if r.new_hold in ('W', 'R'):
-                # The thread still holds the lock.  The scanning unlocker parks the queue in a local list (it stored NULL over the head
-                # itself) and restores it before it releases: not an empty queue.  Otherwise the holder leaves with the bit set on an empty
-                # queue; its own next release is then safe only if it keeps the lock through the slow path, which it does exactly when
-                # MU_CONDITION is set as well (the state a timed-out conditional waiter leaves behind).
-                if getattr(r, 'parked', False):
-                    continue
-                bad = next((n for e, n in r.pairs if (n & WT) and not (n & K['MU_CONDITION'])), None)
-                what = 'MU_WAITING set without MU_CONDITION'
-            else:
-                bad = next((n for e, n in r.pairs if n & WT), None)
-                what = 'MU_WAITING still set'
+            bad = next((n for e, n in r.pairs if n & WT), None)
             key = (s7.fn.name, s7.id, 'empty', bad is None, r.entry)
             if key in seen7:
                 continue
             seen7.add(key)
-            rep.instance('C13.R7', 'spinlock released at %s with the queue known empty (lock %s): MU_WAITING left clear%s=%s [%s]' % (s7.where(), r.new_hold, ' or covered by MU_CONDITION' if r.new_hold in ('W', 'R') else '', bad is None, r.entry))
+            rep.instance('C13.R7', 'spinlock released at %s with the queue known empty: MU_WAITING left clear=%s [%s]' % (s7.where(), bad is None, r.entry))
             rep.oblig('C13.R7', bad is None)
             if bad is not None:
                 rep.violate(Violation('C13.R7', s7.where(),
-                    'the spinlock is released with the waiter queue known to be empty but %s (%s): a later release takes the slow path, gives up the lock in its first CAS while it is still using the mutex and - with no queued waiter as a user - another thread can acquire, find itself the last user and free the mutex under it [entry %s, via %s]' % (what, C01bits(K, bad), r.entry, r.ctx()),
+                    'the spinlock is released with the waiter queue known to be empty but MU_WAITING still set: every later release takes the slow path, gives up the lock while it is still using the mutex and - with no queued waiter as a user - another thread can acquire, find itself the last user and free the mutex under it [entry %s, via %s]' % (r.entry, r.ctx()),
                     site='%s/waiting-kept-on-empty-queue' % s7.fn.name))
+    # ... MU_WAITING without MU_CONDITION is the state in which a release gives up the lock in its first CAS and goes on using the mutex, relying on
+    # a queued waiter to keep it alive; MU_WAITING with MU_CONDITION makes the release keep the lock throughout.  A word with MU_WAITING may
+    # therefore lose MU_CONDITION only in a transition that takes MU_WAITING down as well (the queue has drained): clearing the condition bit
+    # alone - on a queue that may be empty, e.g. after a timed-out conditional waiter has removed itself - manufactures the first state
+    # without the waiter.
+    CO = K['MU_CONDITION']
+    for r in eng.records:
+        if r.kind == 'trans' and r.wc.name == 'mu' and r.pairs and any((e & CO) and not (n & CO) for e, n in r.pairs):
+            s7 = r.site(eng.wrappers)
+            bad = next(((e, n) for e, n in r.pairs if (e & CO) and not (n & CO) and (n & WT)), None)
+            key = (s7.fn.name, s7.id, 'cond', bad is None, r.entry)
+            if key in seen7:
+                continue
+            seen7.add(key)
+            rep.instance('C13.R7', 'MU_CONDITION cleared at %s: MU_WAITING cleared with it=%s [%s]' % (s7.where(), bad is None, r.entry))
+            rep.oblig('C13.R7', bad is None)
+            if bad is not None:
+                rep.violate(Violation('C13.R7', s7.where(),
+                    'MU_CONDITION is cleared while MU_WAITING stays set (%s -> %s): with the queue empty (a timed-out conditional waiter has just removed itself) the next release takes the slow path, gives up the lock in its first CAS and - with no queued waiter as a user - the mutex can be freed under it; with conditional waiters still queued their conditions would be evaluated without the lock [entry %s, via %s]'
+                    % (C01bits(K, bad[0]), C01bits(K, bad[1]), r.entry, r.ctx()), site='%s/condition-cleared-waiting-kept' % s7.fn.name))
     rep.floor('C13.R7', 3)
     check_dequeuers(ctx, mod, eng, runs, rep)
     rep.rule('C13.R8', 'pooled waiter records are never handed back to the allocator (wakers post their semaphores with no lock held)')
